@@ -6,8 +6,9 @@ R = copy.deepcopy(CORE_UNIT); R.update({'name': 'ref', 'repo': 'reference', 'sym
 SAMPLE = [0, 1, 4, 23, 57, 96, 200, 300, 383]     # fixed sample of table entries checked by CBMC on every run
 
 def entry_ob(k, name, why):
-    return {'id': 'entry_%03d_%s' % (k, name), 'entry': 'h_entry_equiv', 'enforce': [], 'replace': [], 'unwind': 17, 'timeout': 600, 'defines': ['-DENTRY=%d' % k, '-DVERIF_ABORT_PROVE=1', '-DC01_UF_MUL=1'],
-            'expect_classes': {'assertion': 2}, 'min_obligations': 2, 'abstraction_defines': ['-DC01_UF_MUL=1'], 'checks': [], 'standard_checks': False, 'object_bits': 12, 'why': why}
+    return {'id': 'entry_%03d_%s' % (k, name), 'entry': 'h_entry_equiv', 'enforce': [], 'replace': [], 'unwind': 41 if name.startswith('exp') else 17, 'timeout': 600, 'defines': ['-DENTRY=%d' % k, '-DVERIF_ABORT_PROVE=1', '-DC01_UF_MUL=1'],
+            'expect_classes': {'assertion': 2}, 'min_obligations': 2, 'abstraction_defines': ['-DC01_UF_MUL=1'],
+            'canary': name not in ('trap', 'retd', 'retid', 'retidc', 'mov_dvm', 'mov_dvm_to'),     # the reference never completes on these (Unimplemented / UNREACHABLE): nothing to compare 'checks': [], 'standard_checks': False, 'object_bits': 12, 'why': why}
 
 def dynamic_obligations(metas, tier, wd):
     import cxx2c
